@@ -168,6 +168,30 @@ class Aff:
         raise AnalysisError(f'expression {type(n).__name__} outside the affine sub-language')
 
 
+def fold_const(prog, module, expr, env=None):
+    """constant folding of an input-independent expression with the general evaluator -> list of ints / Vec.const / None"""
+    from ..interp import Interp, Frame
+    from ..values import K, ListV, Fail, RaiseEx
+    it = Interp(prog)
+    fr = Frame(module)
+    for k, v in (env or {}).items():
+        if isinstance(v, list):
+            fr.vars[k] = ListV([K(x) for x in v])
+        elif isinstance(v, Vec) and v.is_const():
+            fr.vars[k] = K(v.cval())
+    try:
+        r = it.ev(expr, fr)
+    except (Fail, RaiseEx):
+        return None
+    if isinstance(r, K) and isinstance(r.v, int) and not isinstance(r.v, bool):
+        return Vec.const(r.v) if r.v >= 0 else None
+    if isinstance(r, K) and isinstance(r.v, (list, tuple)) and all(isinstance(x, int) for x in r.v):
+        return list(r.v)
+    if isinstance(r, ListV) and all(isinstance(x, K) and isinstance(x.v, int) for x in r.items):
+        return [x.v for x in r.items]
+    return None
+
+
 def int_list(node):
     if isinstance(node, (ast.List, ast.Tuple)) and all(isinstance(e, ast.Constant) and isinstance(e.value, int) for e in node.elts):
         return [e.value for e in node.elts]
@@ -194,7 +218,15 @@ def check_fn(run, prog, fname):
             consts[name] = il
         elif isinstance(expr, ast.Constant) and isinstance(expr.value, int):
             consts[name] = Vec.const(expr.value)
+    # names bound at module level to a *computed* constant (a table built by a helper at import time, a comprehension, ...):
+    # constant-folded by the checker's general evaluator - pure integer code on constants only, no input involved
+    for name, expr in mod.consts.items():
+        if name not in consts and not isinstance(expr, (ast.Constant, ast.Lambda)):
+            v = fold_const(prog, 'crypto.crc', expr)
+            if v is not None:
+                consts[name] = v
     aff = Aff(consts)
+    aff.fold = lambda expr: fold_const(prog, 'crypto.crc', expr, aff.env)
     loop = None
     pre, post = [], []
     for st in fn.body:
@@ -223,7 +255,13 @@ def check_fn(run, prog, fname):
             if il is not None:
                 aff.env[st.targets[0].id] = il
             else:
-                aff.env[st.targets[0].id] = aff.ev(st.value)
+                try:
+                    aff.env[st.targets[0].id] = aff.ev(st.value)
+                except AnalysisError:
+                    v = aff.fold(st.value)
+                    if v is None:
+                        raise
+                    aff.env[st.targets[0].id] = v
         elif isinstance(st, ast.AnnAssign) and isinstance(st.target, ast.Name) and st.value is not None:
             il = int_list(st.value)
             aff.env[st.target.id] = il if il is not None else aff.ev(st.value)
